@@ -47,6 +47,7 @@ def parseLeaf (j : Json) : Leaf :=
   | "obj" => .obj ((getArr j "props").map (fun kv => (chars (asStr (pair kv).1), parsePS (pair kv).2)))
       ((getArr j "required").map (fun s => chars (asStr s)))
       (if isNull j "addl" then none else some (parsePS (getD j "addl" .null)))
+  | "untyped" => .untyped ((getArr j "enum").map parseEV)
   | "deep" => .deep ((getArr j "props").map (fun kv => (chars (asStr (pair kv).1), parseDS (pair kv).2)))
       ((getArr j "required").map (fun s => chars (asStr s)))
   | _ => .prim (parsePS j)
@@ -149,6 +150,7 @@ def reqStrings (r : Req) : List Str :=
 
 def psHasInt (ps : PS) : Bool := psIsInt ps
 def leafHasInt : Leaf → Bool
+  | .untyped _ => false
   | .prim ps => psHasInt ps
   | .arr it _ _ _ => psHasInt it
   | .obj sp _ ad => sp.any (fun kv => psHasInt kv.2) || (match ad with | some a => psHasInt a | none => false)
@@ -156,6 +158,7 @@ def leafHasInt : Leaf → Bool
 
 def psHasNum (ps : PS) : Bool := ps.t = .number
 def leafHasNum : Leaf → Bool
+  | .untyped _ => false
   | .prim ps => psHasNum ps
   | .arr it _ _ _ => psHasNum it
   | .obj sp _ ad => sp.any (fun kv => psHasNum kv.2) || (match ad with | some a => psHasNum a | none => false)
@@ -173,7 +176,7 @@ def exoticNumberText (s : Str) : Bool :=
   l.contains '_' || hasSub "0x".toList l || hasSub "inf".toList l || hasSub "nan".toList l
 
 def leafKind : Leaf → String
-  | .prim _ => "prim" | .arr _ _ _ _ => "arr" | .obj _ _ _ => "obj" | .deep _ _ => "deep"
+  | .prim _ => "prim" | .arr _ _ _ _ => "arr" | .obj _ _ _ => "obj" | .deep _ _ => "deep" | .untyped _ => "untyped"
 
 /-- colliding deepObject keys (same bracket groups, e.g. `p[a]` and `p[a]zz`): the Go map keeps one of them, which one
 depends on the iteration order. The driver evaluates the model on the request and on the request with the query
@@ -302,6 +305,7 @@ def handleFlat (j : Json) : Json :=
     (if QueryObjAbsent p r then ["QueryObjAbsent"] else []) ++
     (if QueryObjNoProps p then ["QueryObjNoProps"] else []) ++
     (if DeepKeyJunk p r then ["DeepKeyJunk"] else []) ++
+    (if UntypedSchema p then ["UntypedSchema"] else []) ++
     []
   let unsupported := (schLeaves sch).any (unsupportedLeaf cell name r) ||
     ((schLeaves sch).any leafHasNum && (reqStrings r).any exoticNumberText)
